@@ -36,13 +36,23 @@ def _cases(chk, maxlen):
 def job_annotate(job):
     seed, paths, lab, as_tuple = job
     L = core.labeling(lab).prime(9)
+    # hop times may lie far apart (durations beyond the small-integer range): abstract instant t -> L.time(t) * mult
+    mult = [1, 1, 1000, 86400][seed % 4]
 
     def conc(p):
-        hops = [(L.node(a), L.node(b), L.time(t)) for a, b, t in p]
+        hops = [(L.node(a), L.node(b), L.time(t) * mult) for a, b, t in p]
         return tuple(hops) if as_tuple else hops
 
+    def unmul(x):
+        x = core.as_int(x)
+        return x // mult if x is not None and x % mult == 0 else None
+
     def proj(p):
-        return [[L.anode(h[0]), L.anode(h[1]), L.atime(h[2])] for h in p]
+        out = []
+        for h in p:
+            ct = unmul(h[2])
+            out.append([L.anode(h[0]), L.anode(h[1]), L.atime(ct) if ct is not None else -10 ** 6])
+        return out
 
     cp = [conc(p) for p in paths]
     line = {"op": "annotate", "fork": False, "paths": paths, "lab": lab, "as_tuple": as_tuple}
@@ -54,7 +64,8 @@ def job_annotate(job):
         def num(x):            # any integral scalar (numpy's included); anything else is a value no clause accepts
             return core.as_int(x) if core.as_int(x) is not None else -10 ** 6
         line["lens"] = [num(al.path_length(p)) for p in cp]
-        line["durs"] = [num(al.path_duration(p)) for p in cp]
+        line["durs"] = [unmul(num(al.path_duration(p))) if unmul(num(al.path_duration(p))) is not None else -10 ** 6 for p in cp]
+        line["mult"] = mult
         line["res"] = "ok"
     except Exception as ex:
         line["res"] = core.exc_name(ex)
